@@ -38,4 +38,15 @@ set_option maxRecDepth 8192 in
 /-- Field order of `jsonlEntry` = order of `fieldsOf`. -/
 theorem jsonl_fields_src : jsonl_fields = jsonlFields := by decide
 
+/-- `ipFromAnswer` looks at A, AAAA and HTTPS records only (`RR` in the model) and gives up on a missing or
+unconvertible address (`ipOfVal`). -/
+theorem ip_from_answer_cases_src : ip_from_answer_cases = "*dns.A | *dns.AAAA | *dns.HTTPS | default" := by decide
+theorem ip_from_answer_conds_src : ip_from_answer_conds = "netIP == nil | err != nil" := by decide
+/-- `ipFromHTTPSRR` stops at the first parameter with a family (`ipFromKVs`). -/
+theorem https_rr_conds_src : https_rr_conds = "fam != netutil.AddrFamilyNone | netIP == nil | err != nil" := by decide
+/-- The logged code is the whole `Msg.Rcode`, converted, not a part of it (`rcode16`). -/
+theorem response_rcode_src : response_rcode_rhs = "dnsmsg.RCode(resp.Rcode)" := by decide
+/-- The logged name is the question of the request as received, not of a response. -/
+theorem entry_name_src : entry_name_rhs = "fctx.originalRequest.Question[0]" := by decide
+
 end Agd.Tie.C15
